@@ -274,6 +274,8 @@ def eb_build(c, key):
             variants.append("W(U)")
         variants.append(f'#[{a}("ph")] Ph({ph_ty})')
         top = (battr("Q") + "\n") if cont else ""
+        if c["sh"] != "none":
+            top += f"#[{a}({vlib.rust_str('[{_variant}]' if c['sh'] == 'wrap' else 'dflt')})]\n"
         item = f"{top}pub enum S<{', '.join(params)}> {{ {', '.join(variants)} }}"
     return item, params, [inst[p] for p in params]
 
@@ -287,7 +289,7 @@ def explicit_bounds_check(chk, tier, seed, replay):
     cases = {}
     for rec in r.cases:
         c = rec["c"]
-        k = "bound|" + "|".join(f"{x}={c[x]}" for x in ("D", "kind", "bpos", "gf", "shape", "other", "spelling", "split", "uses", "lit"))
+        k = "bound|" + "|".join(f"{x}={c[x]}" for x in ("D", "kind", "bpos", "gf", "shape", "other", "spelling", "split", "uses", "lit", "sh"))
         cases[k] = (c, rec["preds"])
     if replay:
         want = json.load(open(replay))["key"]
